@@ -1559,7 +1559,7 @@ def run(ctx):
     corp = get_corpus()
     base_img = make_base_image()
     ctx.level = 'exploration'
-    budget = ctx.budget or (320 if ctx.quick else 1800)
+    budget = ctx.budget or (480 if ctx.quick else 1800)
 
     evaluations = [0]
     per_depth = collections.Counter()
